@@ -77,6 +77,9 @@ func runAll(tier, repo, root, goarch string, seed int) int {
 				}
 			}()
 			rules.Registry[id](ctx, r)
+			if x := rules.ExplainExtra[id]; x != "" {
+				r.Explanation += " " + x
+			}
 		}()
 		if r.Finish() != 0 {
 			code = 1
@@ -113,6 +116,9 @@ func run(prop, tier, repo, root, goarch string, seed int, rule rules.Rule) (code
 	r.Count("repo_functions", len(ctx.RepoFuncs()))
 	fmt.Printf("loaded %d packages, %d repo functions in %.1fs (GOARCH=%s)\n", len(ctx.Pkgs), len(ctx.RepoFuncs()), ctx.LoadSecs, goarch)
 	rule(ctx, r)
+	if x := rules.ExplainExtra[prop]; x != "" {
+		r.Explanation += " " + x
+	}
 	if tier == "thorough" {
 		rules.Thorough(prop, ctx, r, repo, root)
 	}
